@@ -65,5 +65,19 @@ Definition still_completed (comp : list completed) (e : sentry) : bool :=
   se_is_dir e && existsb (fun r => peqb (cp_path r) (se_path e)) comp ||
   existsb (fun r => peqb (cp_path r) (se_path e) && N.eqb (cp_size r) (se_size e) && N.eqb (cp_sum r) (se_content e)) comp.
 
+(* ... and, since `fix: resume skips a completed path only while the destination still holds it`, only if the destination entry
+   still is what that transfer left: a directory for a directory, a file of the source's size and time stamp (within the planner's
+   one-second tolerance) for a file.  The state file says nothing about what happened to the destination after it was written. *)
+Definition dest_holds (dst : fs) (e : sentry) : bool :=
+  match dst (se_path e) with
+  | Some Dir => se_is_dir e
+  | Some (File _ dsz dmt) => negb (se_is_dir e) && N.eqb dsz (se_size e) && mtime_matches (se_mtime e) dmt
+  | None => false
+  end.
+
+Definition plan_resume_d (comp : list completed) (dst : fs) (src : list sentry) : list sentry :=
+  filter (fun e => negb (still_completed comp e && dest_holds dst e)) src.
+
+(* the source-side half alone (what the driver evaluates on listings that are already restricted to held entries) *)
 Definition plan_resume (comp : list completed) (src : list sentry) : list sentry :=
   filter (fun e => negb (still_completed comp e)) src.
